@@ -13,7 +13,15 @@
        entry = path=D | path=F<hex of the content> ('-' = empty); queries = paths joined by ';'
        -> ok|raised '|' state of every queried path after the call: N (nothing) | D | F<hex>, joined by ';'
    safe_comp|hex -> 1|0          check_parts|hex list -> 1|0 (1 = no ValueError)
-   resolve|hex list -> hex list  checked_target|dest hex list|name hex|path hex list -> none | hex list *)
+   resolve|hex list -> hex list  checked_target|dest hex list|name hex|path hex list -> none | hex list
+   safe_b|hex -> 1|0 (element given by its raw bytes: a str iff valid UTF-8)      utf8|hex -> 1|0
+   extract|<hex of the metafile's bytes>
+       -> "none" (Metadata(path) raises) or  name|meta version|piece length|pieces|is_file|entries
+          a value is  i<decimal> | s<hex> | l<number of items> | d<number of keys> ;  "~" = Python None / no such key
+          entries joined by ';' ('-' = none), entry = path:full:filename:length:root with path/full = hex components joined
+          by ',' ('-' = no component)
+   matchv2|B|pl|<hex of the metafile's bytes>|filemap (as for match_v1)
+       -> "none" (no Metadata object, or meta_version != 2) or  count|trace   (trace as for match_v1) *)
 open Extracted
 open Wire
 
@@ -56,6 +64,19 @@ let parse_fs (s : string) : (path * node) list =
                 else failwith "bad node"
     | _ -> failwith "bad fs entry") (split ';' s)
 
+let string_of_value = function
+  | BInt z -> "i" ^ string_of_z z
+  | BStr b -> "s" ^ hex_of_chars b
+  | BList l -> "l" ^ string_of_int (List.length l)
+  | BDict d -> "d" ^ string_of_int (List.length d)
+
+let string_of_entry e =
+  String.concat ":" [field_of_bytes_list e.e_path; field_of_bytes_list e.e_full; hex_of_chars e.e_filename;
+                     string_of_z e.e_length; (match e.e_root with None -> "~" | Some v -> string_of_value v)]
+
+let string_of_trace trace =
+  if trace = [] then "-" else String.concat "," (List.map (fun (l, full) -> hex_of_chars l ^ ">" ^ hex_of_chars full) trace)
+
 let dispatch fields = match fields with
   | ["selftest"] -> if selftest () then "SELFTEST OK" else "SELFTEST FAIL"
   | ["map_pieces"; pl; lens; total] ->
@@ -84,5 +105,22 @@ let dispatch fields = match fields with
   | ["checked_target"; dest; name; path] ->
       (match checked_target (bytes_list_of_field dest) (chars_of_hex name) (bytes_list_of_field path) with
        | None -> "none" | Some t -> field_of_bytes_list t)
+  | ["safe_b"; c] -> if safe_b (chars_of_hex c) then "1" else "0"
+  | ["utf8"; c] -> if utf8_valid (chars_of_hex c) then "1" else "0"
+  | ["extract"; file] ->
+      (match metadata_of_bytes (chars_of_hex file) with
+       | None -> "none"
+       | Some x ->
+           String.concat "|" [hex_of_chars x.x_name; string_of_value x.x_meta_version; string_of_value x.x_piece_length;
+                              string_of_value x.x_pieces; (if x.x_is_file then "1" else "0");
+                              (if x.x_files = [] then "-" else String.concat ";" (List.map string_of_entry x.x_files))])
+  | ["matchv2"; b; pl; file; fm] ->
+      (match metadata_of_bytes (chars_of_hex file) with
+       | None -> "none"
+       | Some x ->
+           (match rebuild_v2 Sha.sha256_chars (nat_of_int (int_of_string b)) (nat_of_int (int_of_string pl))
+                    (parse_fm fm) x with
+            | None -> "none"
+            | Some (trace, count) -> string_of_int (int_of_nat count) ^ "|" ^ string_of_trace trace))
   | _ -> "ERROR unknown request"
 let () = main_loop dispatch
